@@ -1,5 +1,5 @@
 (* C05, scan side — the state anchor and the composition of a scale-up.  Theorems only. *)
-From Esc Require Import SpecScan proofs.ScanLemmas proofs.ScanState proofs.ScanTaint proofs.ScanOrder.
+From Esc Require Import SpecScan proofs.ScanLemmas proofs.ScanState proofs.ScanTaint proofs.ScanExact proofs.ScanOrder.
 
 (* the cached node size a scan leaves is the allocatable of the first listed node of that scan, or — when the group lists
    no node — the cache it found: "the last observed node size", for every state and oracle *)
@@ -14,3 +14,13 @@ Print Assumptions c05_cache_anchor.
 Theorem c05_no_clamp_exact : forall want target m, target + want <= m -> nodes_to_add want target m = want.
 Proof. intros want target m H. unfold nodes_to_add. replace (m <? target + want) with false by (symmetry; apply Z.ltb_ge; lia). reflexivity. Qed.
 Print Assumptions c05_no_clamp_exact.
+
+(* the number of nodes brought into service: when the scan buys capacity, the first cloud request is exactly
+   clamp(N - untainted) on top of the desired size left by the scan's own terminations, N being the needed number the
+   utilisation arithmetic (or the minimum) gives for the snapshot *)
+Theorem c05_exact_remainder : forall now gdry api g a nodes pods,
+  let x := ctx_of now gdry api g a nodes pods in
+  NoDup (map n_name (x_nodes x)) ->
+  check_C07_exact x (r_calls (scan_of now gdry api g a nodes pods)) = true.
+Proof. exact group_passes_C07_exact. Qed.
+Print Assumptions c05_exact_remainder.
